@@ -262,6 +262,17 @@ func (w *W) value(a *scen.Arg) any {
 		return someStruct{int(a.I), a.S}
 	case "pstruct":
 		return &someStruct{int(a.I), a.S}
+	case "ustruct": // a method-less struct whose fields are not exported (plain, behind a pointer, as element)
+		v := hiddenStruct{host: a.S, port: int(a.I), inner: struct{ n int }{int(a.I)}}
+		switch a.I % 4 {
+		case 1:
+			return &v
+		case 2:
+			return []hiddenStruct{v, v}
+		case 3:
+			return map[string]hiddenStruct{"a": v}
+		}
+		return v
 	case "map":
 		m := map[string]int{}
 		for i := range a.Items {
@@ -363,4 +374,10 @@ func (r *relogStringer) String() string {
 		}
 	}
 	return fmt.Sprintf("relog-%d", n)
+}
+
+type hiddenStruct struct {
+	host  string
+	port  int
+	inner struct{ n int }
 }
